@@ -93,3 +93,15 @@ Definition keyset_is {V} (d : odict V) (k : Z) : bool :=
 Definition nonempty {A} (l : list A) : bool := match l with [] => false | _ => true end.
 (* for k, v in d.items(): d[k] = f v   (the value under the key being visited is replaced; keys and order are kept) *)
 Definition omap_values {V} (f : V -> V) (d : odict V) : odict V := map (fun kv : Z * V => (fst kv, f (snd kv))) d.
+
+(* sorted(d.items()) on a dict with int keys: by key (keys are distinct, so the values are never compared) *)
+Fixpoint insert_by_key {V} (x : Z * V) (l : list (Z * V)) : list (Z * V) :=
+  match l with
+  | [] => [x]
+  | y :: r => if fst x <=? fst y then x :: l else y :: insert_by_key x r
+  end.
+Fixpoint isort_by_key {V} (l : list (Z * V)) : list (Z * V) :=
+  match l with [] => [] | x :: r => insert_by_key x (isort_by_key r) end.
+(* set(d) == set(range(len(d))) *)
+Definition keys_are_range {V} (d : odict V) : bool :=
+  forallb (fun k => existsb (Z.eqb k) (okeys d)) (zrange 0 (zlen d)) && forallb (fun k => (0 <=? k) && (k <? zlen d)) (okeys d).
